@@ -47,7 +47,7 @@ if __name__ == "__main__":
         if a.startswith("--props"):
             props = a.split("=", 1)[1].split(",")
     import json
-    rids = args or sorted(d for d in os.listdir(BASE) if os.path.isdir(os.path.join(BASE, d)))
+    rids = args or sorted(d for d in os.listdir(BASE) if os.path.isfile(os.path.join(BASE, d, "patch.diff")))
     expected = {}
     if os.path.exists(os.path.join(BASE, "expected.json")):
         with open(os.path.join(BASE, "expected.json")) as f:
